@@ -555,6 +555,7 @@ def tree_features(prog):
                     (static type: an enum of naturals such as {2, 3})
        enum-div   : the same for `/`
        enum-neg   : the same for unary `-`
+       neglit-cmp-if : a comparison with a negative literal on the left AND an if-expression with a negative literal (operand) in a branch
        enum-arith : any of + - * // % with such a left operand (the result is inferred Nat even when the right operand is an Int)"""
     feats = set()
     enum_vars = set()
@@ -602,9 +603,18 @@ def tree_features(prog):
             return e[1] in enum_lists
         return False
 
+    seen = {"neg_cmp": False, "neg_branch": False}
+
+    def neg_lit(e):
+        return e[0] == "lit" and e[1] == "Int" and e[2] < 0
+
     def walk(e):
         if not isinstance(e, tuple):
             return
+        if e[0] == "cmp" and neg_lit(e[2]):
+            seen["neg_cmp"] = True
+        if e[0] == "if" and (neg_lit(e[2]) or neg_lit(e[3]) or any(x[0] == "bin" and (neg_lit(x[2]) or neg_lit(x[3])) for x in (e[2], e[3]))):
+            seen["neg_branch"] = True
         if e[0] == "bin" and e[1] == "-" and is_enum_nat(e[2]):
             feats.add("enum-minus")
         if e[0] == "bin" and e[1] == "/" and is_enum_nat(e[2]):
@@ -650,4 +660,8 @@ def tree_features(prog):
             elif s[0] == "exprstmt":
                 walk(s[1])
     stmts(prog)
+    if seen["neg_cmp"] and seen["neg_branch"]:
+        # `if(-1 < 3, do(-1), do(1))`: a negative literal compared on the left and a negative literal (operand) in an
+        # if-branch — the literal's type is linked to a Nat-based guard type and the branch value is wrapped in Nat(...)
+        feats.add("neglit-cmp-if")
     return feats
